@@ -186,6 +186,12 @@ fn privacy_programs() -> Vec<(String, bool, String)> {
     // a module-level `let` must not make the rest of the file count as "inside the module" (finding F12)
     out.push(("mod m {\n  fn secret(){ 42.0 }\n  let y = 1.0\n}\nlet z = m::secret()\nfn dsp(){ z }\n".to_string(), true, "qualified path from a top-level let that follows a module-level let".into()));
     out.push(("mod m {\n  fn secret(){ 42.0 }\n}\nlet z = m::secret()\nfn dsp(){ z }\n".to_string(), true, "qualified path from a top-level let (control)".into()));
+    // wildcard imports written inside an inline module with a RELATIVE base: whatever they bring into scope, a private
+    // member of the named module must stay out of reach from the importing module and from its other children
+    out.push(("mod outer {\n    mod inner {\n        fn secret() { 42.0 }\n        pub fn open() { 1.0 }\n    }\n    use inner::*\n    pub fn g() { secret() }\n}\nfn dsp() { outer::g() }\n".to_string(), true, "wildcard import with a relative base, private member of a child module from the parent".into()));
+    out.push(("mod top {\n    mod a {\n        mod deep {\n            fn hidden() { 7.0 }\n        }\n    }\n    use a::deep::*\n    mod b {\n        pub fn g() { hidden() }\n    }\n}\nfn dsp() { top::b::g() }\n".to_string(), true, "wildcard import with a relative base, private member of a cousin module".into()));
+    out.push(("mod math {\n    pub fn double(x) { x * 2.0 }\n    fn hidden(x) { x * 100.0 }\n}\nuse math::*\nfn dsp() { hidden(21.0) }\n".to_string(), true, "absolute wildcard import, private member".into()));
+    out.push(("mod math {\n    pub fn double(x) { x * 2.0 }\n    fn hidden(x) { x * 100.0 }\n}\nuse math::*\nfn dsp() { double(21.0) }\n".to_string(), false, "absolute wildcard import, public member (control)".into()));
     // control: the owner itself and a child module may use the private member
     out.push(("mod osc { fn secret(x) { x * 2.0 } pub fn open(x) { osc::secret(x) } mod detail { pub fn twice(x) { osc::secret(x) } } pub fn t(x) { osc::detail::twice(x) } }\nfn dsp() { osc::open(1.0) + osc::t(1.0) }\n".to_string(), false, "own hierarchy".into()));
     out
